@@ -44,9 +44,12 @@ CFG = {
             "comments, unknown statements, any run of blanks between keyword and name pieces, last newmtl "
             "unterminated, 1/12 library missing) -> obj.Load -> obj.Save "
             "(one group) or obj.SaveAll (distinct names) into a new directory tree -> obj.Load; materials reused "
-            "around another one (red:2 green:1 red:3, nil included) at 1/5 of the meshes; per run one written scene "
-            "(3 meshes, ~1500 faces, 3-digit indices, 75-90 KiB) and one OBJ text of 140-220 KiB (g / usemtl lines "
-            "before every scanner refill); distinct by input; non-trivial = at least one triangle and the first "
+            "around another one (red:2 green:1 red:3, nil included) at 1/5 of the meshes; per run one OBJ text of "
+            "140-220 KiB (g / usemtl lines before every scanner refill) and a SIZE LADDER: one written scene (4 "
+            "meshes, all attribute sets, ranges cut at powers of two, 2^k+1 / 3F vertices) and one read text (4 "
+            "groups, v lines between faces, usemtl at 2^k) per rung of 2^10+1, 2^12+1, 2^13+1, 2^14+1, 2^15+1 faces "
+            "(2^16+1 in thorough), judged harness-side by an exact Go re-implementation of the direct semantics "
+            "(GoFail), the 1025-face scene and a 257-face ladder text also evaluated in Coq; distinct by input; non-trivial = at least one triangle and the first "
             "operation succeeded",
     "trusted": ["strconv.AppendFloat(…,'f',-1,64) followed by ParseFloat(…,32) yields float32(x) (false only at "
                 "exact float32 midpoints; generators do not produce them)",
@@ -57,7 +60,9 @@ CFG = {
                 "compared); the harness finds them with its own line/field splitter",
                 "the comparison model <-> implementation is on observables (validity + direct meaning of a text, "
                 "group observations + well-formedness of a read result), not on vertex numbering or line order; "
-                "the text written for an ill-formed mesh list is compared by error class only"],
+                "the text written for an ill-formed mesh list is compared by error class only",
+                "size ladder (ladder.go): Go re-implementation of file_groups / obs / obs_written, tied to the Gallina "
+                "definitions only through the bottom-rung cases that are also evaluated in Coq"],
     "modelled": ["obj.WriteMeshes, obj.WriteMesh (line records, v/vt/vn offsets, g rule, material ranges)",
                  "obj.ReadMesh (tables, per-group corner table keyed by token text, material range counting, only the "
                  "first three corners of an f line, index 0 = absent for vt/vn, error classes Declared / Crash)",
